@@ -3097,6 +3097,11 @@ pub fn c12_layers(rep: &mut Report, idx: &mut u64) {
     for layer in 0..6usize {
         for sw in 0..32usize {
             for cm in 0..32usize {
+              for dax_zero in [false, true] {
+                // Config.dax_file_size = Some(8) or Some(0) ("every file"); without per-file DAX configured there is one case
+                if dax_zero && sw & 16 == 0 {
+                    continue;
+                }
                 let mine = rep.mine(*idx);
                 *idx += 1;
                 if !mine {
@@ -3104,7 +3109,7 @@ pub fn c12_layers(rep: &mut Report, idx: &mut u64) {
                 }
                 let (no_open, no_opendir, writeback, killpriv, dax) = (sw & 1 != 0, sw & 2 != 0, sw & 4 != 0, sw & 8 != 0, sw & 16 != 0);
                 let caps = baseline | (0..5).filter(|i| cm & (1 << i) != 0).map(|i| varied[i]).fold(0, |a, b| a | b);
-                let cfg = PtCfg { no_open, no_opendir, writeback, killpriv_v2: killpriv, dax, behind_vfs: layer == 1 || layer >= 3, layer_cfg_off: layer == 3 || layer == 5, late_mount: layer >= 4, ..PtCfg::base() };
+                let cfg = PtCfg { no_open, no_opendir, writeback, killpriv_v2: killpriv, dax, behind_vfs: layer == 1 || layer >= 3, layer_cfg_off: layer == 3 || layer == 5, late_mount: layer >= 4, dax_zero, ..PtCfg::base() };
                 let n0 = cl.nreq;
                 // the world: exported tree with a 7-byte file `a`, a 9-byte file `d/a` and a set-user-ID file `s`
                 let mut w = PtWorld::new_caps(&cfg, &mut cl, true, if layer == 2 { crate::ptworld::CAPABLE_ALL } else { caps });
@@ -3199,8 +3204,11 @@ pub fn c12_layers(rep: &mut Report, idx: &mut u64) {
                     } else if big_dax {
                         problems.push(("dax-behaviour".into(), "FUSE_ATTR_DAX on a file although per-file DAX is not configured".into()));
                     }
-                    if small_dax {
+                    if small_dax && !dax_zero {
                         problems.push(("dax-behaviour".into(), "FUSE_ATTR_DAX on a 7-byte file although dax_file_size is 8".into()));
+                    }
+                    if dax && dax_zero {
+                        problems.extend(eq("dax-all-files-behaviour", small_dax, CAP_DAX, "LOOKUP of a 7-byte file carries FUSE_ATTR_DAX (dax_file_size = 0: every file)"));
                     }
                 } else {
                     problems.push(("probe-lookups-failed".into(), format!("a: {:?} s: {:?} d/a: {:?}", a.is_some(), s.is_some(), da.is_some())));
@@ -3211,15 +3219,16 @@ pub fn c12_layers(rep: &mut Report, idx: &mut u64) {
                 nn.sort();
                 nn.dedup();
                 rep.outcome(&format!("layer:{}:enabled{:x}:{}{}", layer_name, (enabled >> 16 & 3) | (enabled >> 22 & 4) | (enabled >> 25 & 8) | (enabled >> 29 & 16), if problems.is_empty() { "ok" } else { "MISMATCH" }, if nn.is_empty() { String::new() } else { format!(":negotiated-but-inert[{}]", nn.join(",")) }));
-                rep.state_of(&("layer", layer, sw, cm));
+                rep.state_of(&("layer", layer, sw, cm, dax_zero));
                 rep.sample(|| json!({"layer": layer_name, "no_open": no_open, "no_opendir": no_opendir, "writeback": writeback, "killpriv_v2": killpriv, "dax": dax, "offered": format!("{:#x}", caps), "enabled": format!("{:#x}", enabled)}));
                 let mut seen = BTreeSet::new();
                 for (class, msg) in problems {
                     if !seen.insert(class.clone()) {
                         continue;
                     }
-                    rep.violation(&format!("C12/{}/{}", layer_name, class), &msg, || json!({"engine": "c12-layers", "layer": layer_name, "no_open": no_open, "no_opendir": no_opendir, "writeback": writeback, "killpriv_v2": killpriv, "dax": dax, "offered": format!("{:#x}", caps), "enabled": format!("{:#x}", enabled)}));
+                    rep.violation(&format!("C12/{}/{}", layer_name, class), &msg, || json!({"engine": "c12-layers", "layer": layer_name, "no_open": no_open, "no_opendir": no_opendir, "writeback": writeback, "killpriv_v2": killpriv, "dax": dax, "dax_all_files": dax_zero, "offered": format!("{:#x}", caps), "enabled": format!("{:#x}", enabled)}));
                 }
+              }
             }
         }
     }
